@@ -91,7 +91,17 @@ def split_literals(test: ast.AST, pol: bool, out: list):
         for x in test.values:
             split_literals(x, pol, out)
         return
+    if not pol and isinstance(test, ast.Compare) and len(test.ops) == 1 and type(test.ops[0]) in _NEGATED:
+        # not (a != b)  ==  a == b : keep every literal that has an exact positive spelling positive
+        flipped = ast.Compare(left=test.left, ops=[_NEGATED[type(test.ops[0])]()], comparators=test.comparators)
+        ast.copy_location(flipped, test)
+        flipped._parent = getattr(test, "_parent", None)
+        out.append((flipped, True))
+        return
     out.append((test, pol))
+
+
+_NEGATED = {ast.Eq: ast.NotEq, ast.NotEq: ast.Eq, ast.In: ast.NotIn, ast.NotIn: ast.In, ast.Is: ast.IsNot, ast.IsNot: ast.Is}
 
 
 def _reach_forward(cfg, a, b) -> bool:
